@@ -18,6 +18,7 @@ package jobqueuecontroller
 //@  && jwObj[i].Status.StartTime != nil
 
 //@ func JobControl.StartJob
+//@   params c, ctx, rj
 //@   tags C05, C07, C11
 //@   requires c != nil && rj != nil
 //@   modifies jwN, jwKind, jwObj, jwOK, clock
@@ -34,6 +35,7 @@ package jobqueuecontroller
 //@  && (job.LabelKeyAdmissionErrorMessage in jwObj[i].Annotations)
 
 //@ func JobControl.RejectJob
+//@   params c, ctx, rj, msg
 //@   tags C06
 //@   requires c != nil && rj != nil
 //@   modifies jwN, jwKind, jwObj, jwOK
@@ -72,12 +74,14 @@ package jobqueuecontroller
 //@ pure policyOf(rj *execution.Job) execution.ConcurrencyPolicy = rj.Spec.StartPolicy != nil ? rj.Spec.StartPolicy.ConcurrencyPolicy : ""
 
 //@ func PerConfigReconciler.enqueueAfter
+//@   params w, rjc, purpose, duration
 //@   tags C06, C07
 //@   requires w != nil && rjc != nil
 //@   modifies wakeN, wakeKey, wakeAfter
 //@   ensures [C06,C07] arms-wakeup: wakeN == old(wakeN) + 1 && wakeKey[old(wakeN)] == nsname(rjc.Namespace, rjc.Name) && wakeAfter[old(wakeN)] == max(1000000000, duration)
 
 //@ func PerConfigReconciler.startJob
+//@   params w, ctx, rjc, rj, store, oldCount
 //@   tags C05, C06, C20
 //@   requires [C05] below-limit: (policyOf(rj) == execution.ConcurrencyPolicyForbid || policyOf(rj) == execution.ConcurrencyPolicyEnqueue) ==> oldCount + 1 <= maxConc(rjc)
 //@   requires w != nil && rjc != nil && rj != nil && typeis(w.client, *JobControl) && unbox(w.client, *JobControl) != nil
@@ -98,6 +102,7 @@ package jobqueuecontroller
 
 // Decision table of the concurrency policies (C06) and the startAfter gate (C07); `clock` is the latest clock reading.
 //@ func PerConfigReconciler.canStartJob
+//@   params w, ctx, rjc, rj, activeCount
 //@   tags C05, C06, C07
 //@   requires w != nil && rjc != nil && rj != nil && typeis(w.client, *JobControl) && unbox(w.client, *JobControl) != nil
 //@   modifies jwN, jwKind, jwObj, jwOK, clock, wakeN, wakeKey, wakeAfter
@@ -124,6 +129,7 @@ package jobqueuecontroller
 //@ pure created(rj *execution.Job) Int = ns(rj.CreationTimestamp.Time)
 
 //@ func PerConfigReconciler.listQueuedJobsForJobConfig
+//@   params w, rjc
 //@   tags C06
 //@   requires w != nil && rjc != nil
 //@   loop 1 invariant -1 <= rangeindex && rangeindex < len(jobs)
@@ -139,6 +145,7 @@ package jobqueuecontroller
 //@ pure dueAtEntry(rj *execution.Job, entryClock Int) bool = !(hasStartAfter(rj) && startAfterNs(rj) > entryClock)
 
 //@ func PerConfigReconciler.SyncOne
+//@   params w, ctx, namespace, name, arg3
 //@   tags C05, C06, C07, C20
 //@   requires w != nil && typeis(w.client, *JobControl) && unbox(w.client, *JobControl) != nil
 //@   modifies jwN, jwKind, jwObj, jwOK, clock, wakeN, wakeKey, wakeAfter, smHas, smVal, heap(utilatomic.counterNode)
@@ -157,12 +164,14 @@ package jobqueuecontroller
 // ---- reconciler_independent.go: Jobs without a JobConfig -----------------------------------------------------------------
 
 //@ func IndependentReconciler.enqueueAfter
+//@   params r, rj, purpose, duration
 //@   tags C07
 //@   requires r != nil && rj != nil
 //@   modifies wakeN, wakeKey, wakeAfter
 //@   ensures [C07] arms-wakeup: wakeN == old(wakeN) + 1 && wakeKey[old(wakeN)] == nsname(rj.Namespace, rj.Name) && wakeAfter[old(wakeN)] == max(1000000000, duration)
 
 //@ func IndependentReconciler.SyncOne
+//@   params r, ctx, namespace, name, arg3
 //@   tags C07, C20
 //@   requires r != nil && typeis(r.client, *JobControl) && unbox(r.client, *JobControl) != nil
 //@   modifies jwN, jwKind, jwObj, jwOK, clock, wakeN, wakeKey, wakeAfter
@@ -177,8 +186,10 @@ package jobqueuecontroller
 
 // failed syncs of this reconciler are requeued without limit (C20)
 //@ func PerConfigReconciler.MaxRequeues
+//@   params w
 //@   ensures [C20] unlimited-requeues: result == -1
 
 // failed syncs of this reconciler are requeued without limit (C20)
 //@ func IndependentReconciler.MaxRequeues
+//@   params r
 //@   ensures [C20] unlimited-requeues: result == -1
